@@ -170,9 +170,36 @@ func (c *ColAuto) Infer(t ColumnType) error {
 }
 
 var (
-	_ Column    = &ColAuto{}
-	_ Inferable = &ColAuto{}
+	_ Column       = &ColAuto{}
+	_ Inferable    = &ColAuto{}
+	_ StateEncoder = &ColAuto{}
+	_ StateDecoder = &ColAuto{}
+	_ Preparable   = &ColAuto{}
 )
+
+// DecodeState implements StateDecoder, forwarding to inferred column
+// (e.g. LowCardinality has state).
+func (c ColAuto) DecodeState(r *Reader) error {
+	if s, ok := c.Data.(StateDecoder); ok {
+		return s.DecodeState(r)
+	}
+	return nil
+}
+
+// EncodeState implements StateEncoder, forwarding to inferred column.
+func (c ColAuto) EncodeState(b *Buffer) {
+	if s, ok := c.Data.(StateEncoder); ok {
+		s.EncodeState(b)
+	}
+}
+
+// Prepare implements Preparable, forwarding to inferred column.
+func (c ColAuto) Prepare() error {
+	if s, ok := c.Data.(Preparable); ok {
+		return s.Prepare()
+	}
+	return nil
+}
 
 func (c ColAuto) Type() ColumnType {
 	return c.DataType
